@@ -109,6 +109,7 @@ def rule_r3(chk, db, v):
     if not fm:
         chk.ok("R3", v.name + ".no-synthesis", body.loc(), nontrivial=False)
         return
+    selector_takes_all_values(chk, db, v.name)
     for bi, t in fm:
         # closure operand
         clo = None
@@ -143,6 +144,36 @@ def rule_r3(chk, db, v):
             if am != {"as_str"} or um != {"authority"}:
                 ok, what = False, "the synthesised host value is not the request's full authority (Authority::%s via Uri::%s)" % (sorted(am), sorted(um))
         chk.verdict(ok and bool(somes), "R3", v.name + ".on-missing", clo.loc(), what or "on-missing closure never yields a value")
+
+
+def selector_takes_all_values(chk, db, who):
+    """the signed-header selector hands over *every* value of a repeated header: the iterator over the pairs of one name is drained (a
+    loop that keeps calling next() on the same iterator, or an adaptor that consumes it), not asked for its first item only"""
+    cands = [b for b in db.grep("find_multiple_with_on_missing") if b.crate == "s3s" and b.kind in ("Fn", "AssocFn") and
+             short(b.name) == "find_multiple_with_on_missing"]
+    if len(cands) != 1:
+        raise AnchorMissing("signed-header selector find_multiple_with_on_missing: %d candidates" % len(cands))
+    b = inline.inlined(db, cands[0])
+    pushes = [(bi, t) for bi, t in b.calls() if short(callee_def(t)) in ("push", "extend", "insert", "push_back") and
+              (callee_def(t).startswith("alloc::vec") or callee_def(t).startswith("alloc::collections") or "Extend" in callee_def(t))]
+    feeding = {}
+    for pbi, pt in pushes:
+        for a in pt["args"][1:]:
+            sl = flow.backward(b, a, at=pbi)
+            for cb, ct, _ in sl.calls:
+                if callee_def(ct).endswith("iterator::Iterator::next"):
+                    feeding[cb] = ct
+    if not feeding:
+        raise AnchorMissing("the selector pushes no item taken from an iterator")
+    for nb, t in sorted(feeding.items()):
+        sl = flow.backward(b, t["args"][0], at=nb)
+        creators = frozenset(cb for cb, _, _ in sl.calls if cb != nb)
+        some = flow.outcomes_of_call(b, nb).get("Some")
+        r = flow.reach_from_edges(b, some, stop_blocks=creators) if some else set()
+        drained = nb in r and nb not in creators
+        chk.verdict(drained, "R3", "%s.all-values#%d" % (who, sorted(feeding).index(nb)), b.loc(nb),
+                    "the signed-header selector takes only the first item of an iterator whose items it selects (next() is not called again on the same "
+                    "iterator): a second value of a repeated signed header reaches the backend without being covered by the signature")
 
 
 def compared_literals(db, builder_name):
@@ -187,7 +218,7 @@ def run(chk, db, tier):
     vs = sigcore.run_common(chk, db, {"v4-header"}, sigcore.BUILDERS_V4)
     chk.rule("R1", "presented => verdict: v4_check returns None only when no form, no X-Amz-Signature and no authorization header")
     chk.rule("R2", "payload-mode dispatch: each Payload variant only under its guard; SingleChunk carries the buffered body")
-    chk.rule("R3", "signed-header selection: only `host` under HTTP/2 is synthesised, from the full authority")
+    chk.rule("R3", "signed-header selection: every value of a signed header is selected; only `host` under HTTP/2 is synthesised, from the full authority")
     chk.rule("R4", "exclusion predicates compare against exactly {authorization} (+ {X-Amz-Signature} for presigned)")
     chk.guard("R1", rule_r1, db)
     for v in vs:
